@@ -478,6 +478,21 @@ func (e *env) collect() *pools {
 			nDbl--
 		}
 	}
+	// roots (FEN only) with a recorded en-passant target whose capture is illegal because the captured pawn
+	// shields the mover's king on a diagonal: the generator emits the capture, only the legality filter of
+	// the search (make, test the king, take back) keeps it out of the tree
+	nShield := e.c.Pick(40, 200)
+	for tries := 0; nShield > 0 && tries < 20000; tries++ {
+		if ps, kind, ok := posgen.EPShield(rng); ok {
+			rt := e.mkRoot("ep-"+kind, ps.FEN(), nil)
+			if rt == nil || rt.final {
+				continue
+			}
+			if add(rt) {
+				nShield--
+			}
+		}
+	}
 	nNet := e.c.Pick(24, 100)
 	for tries := 0; nNet > 0 && tries < 4000; tries++ {
 		if ps, ok := posgen.KingNet(rng); ok {
@@ -1206,8 +1221,11 @@ func (g *gen) generate() {
 		sc := newScript("soft", g.buckets())
 		gs := plain(rt, g.maxD)
 		gs.soft = []int{0, 1, 5, 20, 100, 500, 2000}[r.IntN(7)]
-		if r.IntN(3) == 0 {
+		switch r.IntN(4) {
+		case 0: // both limits, the hard budget at or above the soft one
 			gs.nodes = gs.soft + r.IntN(200)
+		case 1: // both limits, the hard budget BELOW the soft one (it must still never be exceeded)
+			gs.nodes = r.IntN(gs.soft + 1)
 		}
 		if men(rt.key) > 12 && gs.soft == 0 && gs.nodes == -1 {
 			gs.depth = min(gs.depth, 3)
@@ -1249,7 +1267,7 @@ func (g *gen) generate() {
 		sc := newScript("ponder", g.buckets())
 		gs := plain(rt, 1+r.IntN(3))
 		gs.ponder = r.IntN(min(g.depthFor(rt), 4) + 1)
-		switch r.IntN(5) {
+		switch r.IntN(6) {
 		case 0:
 			gs.nodes = r.IntN(60)
 		case 1:
@@ -1258,6 +1276,9 @@ func (g *gen) generate() {
 			gs.soft = 1 + r.IntN(20)
 		case 3:
 			gs.soft = 1 + r.IntN(500)
+		case 4: // both, in either order
+			gs.soft = 1 + r.IntN(500)
+			gs.nodes = r.IntN(700)
 		}
 		if gs.ponder == 0 && r.IntN(2) == 0 {
 			gs.out = false
@@ -1435,6 +1456,21 @@ func (g *gen) generate() {
 			gs.nodes = 800 + r.IntN(3000)
 			sc.add(gs)
 		}
+		g.emit(sc)
+	}
+	// (k) roots with an uncapturable en-passant target (the captured pawn shields the king): shallow searches on
+	// a fresh engine, where the illegal capture is a root move, then one ply deeper
+	var shield []*root
+	for _, c := range []string{"ep-shield-diag", "ep-shield-diag-two", "ep-shield-aligned"} {
+		shield = append(shield, p.byClass[c]...)
+	}
+	for i := 0; i < T(60, 300) && len(shield) > 0; i++ {
+		rt := shield[i%len(shield)]
+		sc := newScript("ep-shield", g.buckets())
+		sc.add(plain(rt, 1+r.IntN(2)))
+		gs := plain(rt, 3+r.IntN(2))
+		gs.nodes = 1000 + r.IntN(3000)
+		sc.add(gs)
 		g.emit(sc)
 	}
 	// (h) very deep searches of positions with a handful of men: the depth-gated rules (reverse futility
